@@ -94,7 +94,9 @@ def loader_fields(ctx, clsname):
     for n in ast.walk(fn):
         if isinstance(n, ast.Call) and isinstance(n.func, ast.Attribute) and n.func.attr in ('get', 'findtext') \
                 and n.args and isinstance(n.args[0], ast.Constant) and isinstance(n.args[0].value, str):
-            recv = path_of(n.func.value)
-            if recv in ('elem', 'e', 'v', 'eroot'):
+            root = n.func.value
+            while isinstance(root, (ast.Attribute, ast.Call, ast.Subscript)):
+                root = root.func if isinstance(root, ast.Call) else root.value
+            if isinstance(root, ast.Name) and root.id in ('elem', 'e', 'v', 'eroot'):
                 names.add(n.args[0].value)
     return names
